@@ -200,9 +200,14 @@ var curCase atomic.Value // string
 var caseStart atomic.Int64
 
 func beginCase(s string) {
+	if len(s) > 300 {
+		s = s[:300] + "..."
+	}
 	curCase.Store(s)
 	caseStart.Store(time.Now().UnixNano())
 }
+
+func endCase() { caseStart.Store(0) }
 
 // ---------------------------------------------------------------- main
 
@@ -213,6 +218,7 @@ type ctx struct {
 	chEval  *vh.Channel
 	chSq    *vh.Channel
 	chLg    *vh.Channel
+	chLex   *vh.Channel
 	orTruth *vh.Oracle
 	orTotal *vh.Oracle
 	seenV   map[string]bool
@@ -256,6 +262,7 @@ func main() {
 	c.chEval = vh.NewChannel("eval", "frac/processor.buildEvalTree + node.{And,Or,NAnd,Not} on a universe of 2^k documents vs SV.Parser.Ast.eval; trees with NAND; non-trivial = contains NOT or NAND")
 	c.chSq = vh.NewChannel("seqql.skel", "ParseSeqQL and parseSeqQLFilter on rendered abstract token lists (every list up to a length bound over two alphabets, plus random longer ones) vs sqParse/sqFilter on tokSeqQL; result kind ok/err/panic and the tree; non-trivial = parses to a tree with an operator")
 	c.chLg = vh.NewChannel("legacy.skel", "ParseQuery and buildAst likewise vs lgParse/lgParseRaw on tokLegacy; non-trivial = parses to a tree with an operator")
+	c.chLex = vh.NewChannel("seqql.lex", "ParseSeqQL on strings (well-formed generated queries and hostile/mutated ones, 4 mappings, case sensitive on/off) vs SV.Parser.parseSeqQL run on the real lexer's token stream annotated with Go's unicode tables: result kind, the whole tree with every literal/range and its terms, and the pipes; non-trivial = accepted query of more than 3 tokens")
 	c.orTruth = vh.NewOracle("truth", "truth table (real eval tree over 2^k documents) of the AST returned by ParseSeqQL/ParseQuery == truth table of the written expression; all trees up to a node bound with minimal and full parentheses, plus random expressions with random redundant parentheses, keyword case, in-lists and multi-word text; non-trivial = expression with at least two operators")
 	c.orTotal = vh.NewOracle("total", "ParseSeqQL/ParseQuery/ParseAggregationFilter under recover with a watchdog: returns a query or an error for grammar-derived and mutated strings x mappings (all types, test mapping, keyword/text/path only, nil); non-trivial = input is not accepted by the parser (error path) or mentions a non-searchable field type")
 
@@ -290,6 +297,7 @@ func main() {
 		c.runSkel(rng.Fork())
 		c.runTruth(rng.Fork())
 		c.runTotal(rng.Fork())
+		c.runLex(rng.Fork())
 		c.runDeep()
 	}
 	caseStart.Store(0)
@@ -297,6 +305,7 @@ func main() {
 	rep.AddChannel(c.chEval, o.Driver)
 	rep.AddChannel(c.chSq, o.Driver)
 	rep.AddChannel(c.chLg, o.Driver)
+	rep.AddChannel(c.chLex, o.Driver)
 	rep.AddOracle(c.orTruth)
 	rep.AddOracle(c.orTotal)
 	rep.Write(o.Out)
@@ -329,6 +338,19 @@ func (c *ctx) replayLine(l string) {
 			var k int
 			fmt.Sscanf(f[2], "%d", &k)
 			c.caseTruth(f[1], k, f[3], unhex(f[4]), unhex(f[5]), "replay")
+		}
+	case "lex":
+		// lex <mapping id> <cs> <hex query>
+		if len(f) == 4 {
+			c.caseLex(f[1], f[2] == "1", unhex(f[3]), "replay")
+		}
+	case "sqlex":
+		// a driver request cannot be turned back into a string; nothing to re-run
+	case "deepin":
+		if len(f) == 4 {
+			var d int
+			fmt.Sscanf(f[3], "%d", &d)
+			c.caseDeepIn(f[1], f[2], d)
 		}
 	case "deep":
 		if len(f) == 4 {
